@@ -91,14 +91,21 @@ prop( 'C06', [ 'X-SERVICES', 'P-REPLYBIT', 'P-ONE', 'P-PROCEED', 'D-ECHO', 'S-ST
       not_decided='framing of reply values, randomness of session handles, socket-level pipelining behaviour (dynamic).',
       technique='sibling exhaustiveness (set comparison of folded constants); path effect counting on the CFG; must-pass-through; zero-count store rules' )
 
-prop( 'C17', [ 'T-CMP', 'T-DURATION', 'T-LOCALIZE' ],
+prop( 'C17', [ 'T-CMP', 'T-DURATION', 'T-LOCALIZE', 'T-RENDER' ],
       decides='T-CMP: the six timestamp comparison operators form one family - __lt__/__gt__ shift by the class _epsilon = 10**-_precision, '
               '__le__/__ge__/__eq__/__ne__ are their negations/disjunction - and render( ms=True )/__str__ use the same _precision, so '
               'comparison and rendering resolution cannot drift apart; T-DURATION: each (unit, suffix) pair duration._format emits is the pair '
               '_parse reads through the DURSPEC_RE group of that suffix (constant regex interpreted by stdlib re), units strictly descending, '
-              'each count taken from the remainder of the next larger unit, fraction padding consistent.',
-      not_decided='float rounding, time-zone/DST behaviour, millisecond fidelity of render/parse (numeric).',
-      technique='operator-family shape matching (AST patterns); unit/suffix table agreement incl. constant-regex group lookup' )
+              'each count taken from the remainder of the next larger unit, fraction padding consistent; T-LOCALIZE: a parsed wall-clock time '
+              'is attached to its zone only by tzinfo.localize( naive, is_dst=<hint derived from the zone designation> ), the call that '
+              'rejects ambiguous / nonexistent times when no DST designation was given; T-RENDER: render derives the calendar fields AND the '
+              'fraction from one value rounded to the requested digits before any formatting (so a fraction that rounds up carries into the '
+              'seconds), the fraction is the last digits+1 characters of its fixed-point rendering, digits default to _precision and are '
+              'limited to 0..6, a parsed fraction is right-padded to microseconds, number_from_datetime = timegm( UTC tuple ) + '
+              'microsecond / 10**6 with true division, datetime_from_number = fromtimestamp( n, tz=zone ).',
+      not_decided='float rounding error itself, the contents of the time-zone database, millisecond equality of render/parse as a value.',
+      technique='operator-family shape matching (AST patterns); unit/suffix table agreement incl. constant-regex group lookup; '
+                'def-use agreement (one rounded value feeds both the seconds and the fraction)' )
 
 prop( 'C18', [ 'T-RECORD', 'H-PARSE', 'H-FILES', 'H-NATURAL', 'H-OPENER', 'H-PACE', 'H-LOAD', 'H-STRICT', 'X-STATES' ],
       decides='T-RECORD: logger.write emits exactly str(timestamp) TAB json(serial) TAB json(data) NEWLINE, parse_record splits at the first '
